@@ -360,6 +360,8 @@ def gen_expr(rng: random.Random, depth: int, feats: set, names: list[str], tagn=
     if k == "skipish":
         # the shape the `skip` optimizer pass looks for: (!("a" | "b") ~ ANY)*
         alts = [("str", rng.choice(lits)) for _ in range(rng.choice([1, 2, 3]))]
+        if "ci" in feats and rng.random() < 0.3:
+            alts = [("ci", x[1]) for x in alts]          # stops that are case-insensitive literals only
         inner = alts[0] if len(alts) == 1 and rng.random() < 0.5 else ("group", ("choice", alts), None) if len(alts) > 1 else alts[0]
         return ("rep", ("group", ("seq", [("not", inner), ("id", "ANY", None)]), None))
     if k == "litchoice":
